@@ -1,7 +1,7 @@
 #!/bin/bash
 # runs every claimed quick (or thorough) check and prints one line per property
 tier=${1:-quick}
-cd /verif
+cd "$(dirname "$0")/.."
 for p in C01 C02 C03 C04 C05 C06 C07 C08 C09 C10 C11 C12 C13 C14 C15 C16 C17 C18 C19 C20; do
   out=$(./check $p $tier 2>&1); rc=$?
   echo "$p exit=$rc $(echo "$out" | grep '^property=' | tail -1 | cut -d' ' -f4-)"
